@@ -97,7 +97,9 @@ LEVEL_TEXT = ("Every TETL_PRECONDITION / _SAFE / TETL_ASSERT site of the current
 LEVEL_NOTE = ("Trusted: Lean kernel + propext/Classical.choice/Quot.sound; the text-level site extractor; the hand models' "
               "fidelity outside the explored inputs; g++-12/ASan/UBSan/fork as observer.  Well-formedness hypotheses of run_eq_expect "
               "(Tetl.C05.Props.WF): class invariant, capacity < 2^64, storage class matches the capacity, fresh object for constructors, "
-              "inserted units fit, replace outside the known-finding class, bit position a value of the word type, div_sat operands int.  "
+              "inserted units fit, replace outside the known-finding class, bit position a value of the word type, div_sat operands int, "
+              "the directly driven unsafe_set_size members with a new size within the constructed elements or beyond the capacity and "
+              "unsafe_destroy with an empty range or a violating pointer; to_ulong / to_ullong need no hypothesis.  "
               "NOT detected by this method: an operation that documents a precondition but has no check at all is in no regenerated "
               "inventory; the hand-made list coverage.documented_preconditions_without_check (built from the \\pre comments and the "
               "standard's preconditions of the modelled families, each probed) records the ones found - 5 groups fixed, 7 open (array "
@@ -137,7 +139,8 @@ UNPROVED_OBSERVED = ["the two check sites inside format_to / format_escaped_sequ
                      "(ASan: stack-buffer-overflow on first use)",
                      "the non-random-access branch of static_vector::insert(pos, first, last) / move_insert / assign / the range constructor "
                      "(no size check before the loop) cannot be instantiated: assert_valid_iterator_pair static_asserts is_pointer_v on the "
-                     "iterators, so only pointers (random access) compile; it has no model",
+                     "iterators, so only pointers (random access) compile (probed with an etl-tagged forward iterator: static assertion failed "
+                     "for insert / assign / the range constructor / move_insert); it has no model",
                      "not covered: the valid streams of the other properties are not re-run in the contract-check builds (DESIGN §4 C05); "
                      "pre-states are built by push_back and, for every 5th line on static_vector / inplace_vector / inplace_string, "
                      "additionally through insert+erase, pop+push or grow-and-cut-back - not through arbitrary operation histories",
